@@ -1,13 +1,102 @@
-import LinOp.C07.Model
+import LinOp.C07.ProofsStruct
 /-!
 C07 — gradients through operators equal gradients through the dense computation.  Property theorems only.
+
+Derivatives are defined algebraically by dual numbers (`Dual α` = α[ε]/ε², `dDenote o θ δ` = ε-part of
+`⟦o⟧(θ+εδ)`), over an arbitrary commutative ring: no analysis.  `bilinDeriv` mirrors the hand-written
+`_bilinear_derivative` code of each class; `pair o g δ = Σ_k g_k δ_k` over all floating parameters.
 -/
 namespace LinOp.C07
+open LinOp Matrix
 
-/-- **Tuple alignment**: the tuple returned by the hand-written `_bilinear_derivative` of every operator
-tree has exactly one entry per tensor of `representation()`. -/
+variable {α : Type} [CommRing α]
+
+/-- **Hand-written derivative = derivative of the dense matrix** (`bilinearDerivative_<class>` for Dense, Diag,
+ConstantDiag, ConstantMul incl. the constant's own gradient, Matmul, Sum/AddedDiag, SumBatch, and all their
+nestings of any depth and any sizes): for every perturbation `δ` of the parameters,
+`Σ_k (op._bilinear_derivative(U, V))_k · δ_k = Σ_c u_cᵀ (D⟦op⟧_θ[δ]) v_c`, the ε-part of `Σ_c u_cᵀ ⟦op(θ+εδ)⟧ v_c`.
+PARTIAL with respect to the full model grammar: the classes Toeplitz, Mul, Masked, Interpolated, BlockDiag,
+BlockInterleaved are modelled and executed (driver correspondence, `dbil` protocol) but their step lemmas are not
+closed; the full claim is `∀ o : Op n m, pair o (bilinDeriv o θ U V) δ = bil (dDenote o θ δ) U V`. -/
+theorem bilinearDerivative_supported_partial {n m : Nat} {o : Op n m} (h : Supported o) (θ δ : Param α o)
+    {d : Nat} (U : Mat α n d) (V : Mat α m d) :
+    pair o (bilinDeriv o θ U V) δ = bil (dDenote o θ δ) U V := by
+  rw [bil_eq_bilS]
+  exact (supported_correct h).2 θ δ d U V
+
+/-- The ε⁰-part of the dual-number evaluation is the operator itself: `⟦o⟧(θ+εδ) = ⟦o⟧θ + ε·(…)`. -/
+theorem denote_dual_re {n m : Nat} {o : Op n m} (h : Supported o) (θ δ : Param α o) (i : Fin n) (j : Fin m) :
+    (denote o (mkDual o θ δ) i j).re = denote o θ i j :=
+  (supported_correct h).1 θ δ i j
+
+/-- **Nesting** (`bilinearDerivative_nested`, the Matmul step): if both factors' derivative code is correct for
+ALL vector pairs, then the product's is — its code hands the *intermediate* vectors `B V` and `Aᵀ U` to the factors.
+The hypotheses are exactly the induction hypotheses; the factors may be arbitrary operator trees. -/
+theorem bilinearDerivative_nested_matmul {n k m : Nat} (a : Op n k) (b : Op k m)
+    (hra : ReOK α a) (hrb : ReOK α b) (ha : Correct α a) (hb : Correct α b) : Correct α (.matmul a b) :=
+  correct_matmul a b hra hrb ha hb
+
+/-- Nesting, ConstantMul step: the sub-operator receives `c·U`; the constant receives `Σ u_cᵀ ⟦base⟧ v_c`. -/
+theorem bilinearDerivative_nested_constMul {n m : Nat} (o : Op n m) (hr : ReOK α o) (h : Correct α o) :
+    Correct α (.constMul o) :=
+  correct_constMul o hr h
+
+/-- Nesting, SumBatch step (`broadcast_params_summed`, block form): every batch member of the base receives the
+same vectors, and the pairing is the SUM over the members. -/
+theorem bilinearDerivative_nested_sumBatch {n m : Nat} (k : Nat) (o : Op n m) (h : Correct α o) :
+    Correct α (.sumBatch k o) :=
+  correct_sumBatch k o h
+
+/-- **Tuple alignment, length**: the tuple returned by the hand-written `_bilinear_derivative` of every operator
+tree (all classes of the model) has exactly one entry per tensor of `representation()`. -/
 theorem bilinearDerivative_aligned_length {n m : Nat} (o : Op n m) :
     (gradSlots o).length = (slots o).length := by
   induction o <;> simp_all [gradSlots, slots]
+
+/-- **Tuple alignment, order**: position by position, floating tensors receive a gradient, index tensors
+(Interpolated) zeros, masks (Masked) `None`. -/
+theorem bilinearDerivative_aligned {n m : Nat} (o : Op n m) :
+    List.Forall₂ (fun s g => slotMatches s g = true) (slots o) (gradSlots o) := by
+  induction o with
+  | dense | diag | constDiag | toeplitz => simp [slots, gradSlots, slotMatches]
+  | constMul o ih => exact List.rel_append ih (by simp [slotMatches])
+  | matmul a b iha ihb => exact List.rel_append iha ihb
+  | sum a b iha ihb => exact List.rel_append iha ihb
+  | mul a b iha ihb => exact List.rel_append iha ihb
+  | masked rows cols o ih => exact List.rel_append ih (by simp [slotMatches])
+  | interp ql qr li ri o ih => exact List.rel_append ih (by simp [slotMatches])
+  | blockDiag k o ih => exact ih
+  | blockInterleaved k o ih => exact ih
+  | sumBatch k o ih => exact ih
+
+/-- **matmul backward**: for `Y = A B` the first-order change is `dY = dA B + A dB`; against an upstream gradient `G`,
+`⟨G, dY⟩ = tr(Gᵀ dA B) + ⟨Aᵀ G, dB⟩` — the parameters receive `_bilinear_derivative(G, B)` and the right-hand side
+receives `A._t_matmul(G)`, as `Matmul.backward` computes. -/
+theorem matmul_backward {n k c : Nat} (A dA : Matrix (Fin n) (Fin k) α) (B dB : Matrix (Fin k) (Fin c) α)
+    (G : Matrix (Fin n) (Fin c) α) :
+    Matrix.trace (Gᵀ * (dA * B + A * dB)) = bilS dA G B + Matrix.trace ((Aᵀ * G)ᵀ * dB) := by
+  have hb : bilS dA G B = Matrix.trace (Gᵀ * dA * B) := rfl
+  rw [hb]
+  simp only [Matrix.mul_add, Matrix.trace_add, Matrix.transpose_mul, Matrix.transpose_transpose, Matrix.mul_assoc]
+
+/-- **solve backward**: if `A X = B` and, to first order, `(A+εdA)(X+εdX) = B+εdB` (i.e. `A dX + dA X = dB`), then
+`dX = A⁻¹ (dB − dA X)`: the derivative of the solve is `−A⁻¹ dA A⁻¹ B + A⁻¹ dB`. -/
+theorem solve_backward {n c : Nat} (A Ainv dA : Matrix (Fin n) (Fin n) α) (X dX B dB : Matrix (Fin n) (Fin c) α)
+    (hinv : Ainv * A = 1) (_h0 : A * X = B) (h1 : A * dX + dA * X = dB) :
+    dX = Ainv * (dB - dA * X) := by
+  rw [← h1, add_sub_cancel_right, ← Matrix.mul_assoc, hinv, Matrix.one_mul]
+
+/-- **solve backward, scalarised**: with `Ls = A⁻ᵀ G` (the code's `left_solves`), `⟨G, dX⟩ = ⟨Ls, dB⟩ − tr(Lsᵀ dA X)`:
+the right-hand side receives `Ls` and the parameters `_bilinear_derivative` with factors pairing to `−Ls Xᵀ`. -/
+theorem solve_backward_scalar {n c : Nat} (A Ainv dA : Matrix (Fin n) (Fin n) α) (X dX B dB G : Matrix (Fin n) (Fin c) α)
+    (hinv : Ainv * A = 1) (h0 : A * X = B) (h1 : A * dX + dA * X = dB) :
+    Matrix.trace (Gᵀ * dX) = Matrix.trace ((Ainvᵀ * G)ᵀ * dB) - bilS dA (Ainvᵀ * G) X := by
+  have hb : bilS dA (Ainvᵀ * G) X = Matrix.trace ((Ainvᵀ * G)ᵀ * dA * X) := rfl
+  rw [solve_backward A Ainv dA X dX B dB hinv h0 h1, hb]
+  simp only [Matrix.transpose_mul, Matrix.transpose_transpose, Matrix.mul_sub, Matrix.trace_sub, Matrix.mul_assoc]
+
+/-- The hypotheses of the main theorem are satisfiable by a depth-3 nesting. -/
+example : Supported (.constMul (.matmul (.sum (.dense 2 3) (.dense 2 3)) (.sumBatch 2 (.dense 3 2)))) :=
+  .constMul (.matmul (.sum (.dense 2 3) (.dense 2 3)) (.sumBatch 2 (.dense 3 2)))
 
 end LinOp.C07
